@@ -394,7 +394,7 @@ def family(name, quick=True):
                 out.append(("stop_after_attempt(%d),fixed(%d)" % (n, d), pipeline(retry_max=n, delay=d, fail_until=99), []))
         out.append(("retry succeeds on 3rd", pipeline(retry_max=4, delay=1, fail_until=2), []))
         # composed policies: the library conditions combined with a user's plain callable (neutral element, either side)
-        for comp in (("custom_and", "or_custom") if quick else ("custom_and", "and_custom", "custom_or", "or_custom")):
+        for comp in ("custom_and", "and_custom", "custom_or", "or_custom"):
             pc = pipeline(retry_max=3, delay=1, fail_until=99)
             pc["steps"]["b"]["retry"]["compose"] = comp
             out.append(("stop_after_attempt(3) composed %s" % comp, pc, []))
